@@ -38,9 +38,10 @@ Local Open Scope Z_scope.
 
 Record fixes := mkFx { f_sat : bool;     (* fixes/C09-expire-saturate.patch *)
                        f_clamp : bool;   (* fixes/C09-timeout-clamp.patch *)
-                       f_todo : bool }.  (* fixes/C09-run-pending-todo.patch *)
-Definition fixed : fixes := mkFx true true true.
-Definition as_found : fixes := mkFx false false false.
+                       f_todo : bool;    (* fixes/C09-run-pending-todo.patch *)
+                       f_chk0 : bool }.  (* fixes/C08-timer-del-forged-handle.patch *)
+Definition fixed : fixes := mkFx true true true true.
+Definition as_found : fixes := mkFx false false false false.
 
 Definition two32 : Z := 4294967296.
 Definition two31 : Z := 2147483648.
@@ -182,10 +183,11 @@ Definition timer_add (fx : fixes) (st : lp) (p dur data chk : Z) : lp :=
 
 Inductive lookup_res := LErr (e : Z) | LOk (i : Z) (s : slot).
 (* _timer_from_handle_ (qb_array_index grows the array on an index past its end: a zeroed element) *)
-Definition timer_from_handle (st : lp) (h : Z) : lookup_res :=
+Definition timer_from_handle (fx : fixes) (st : lp) (h : Z) : lookup_res :=
   if h =? 0 then LErr LT_EINVAL else
   let check := to_i32 (h / two32) in
   let idx := to_i32 (h mod two32) in
+  if f_chk0 fx && (check =? 0) then LErr LT_EINVAL else      (* repaired code: if (check == 0) return -EINVAL; *)
   if idx <? 0 then LErr LT_ERANGE else
   match nth_slot st idx with
   | Some s => if s_check s =? check then LOk idx s else LErr LT_EINVAL
@@ -203,8 +205,8 @@ Definition with_fire (s : slot) (x : Z) : slot :=
   mkS (s_state s) (s_check s) (s_prio s) (s_data s) (s_th s) (g_add s) (g_dur s) x.
 
 (* qb_loop_timer_del *)
-Definition timer_del (st : lp) (h : Z) : lp :=
-  match timer_from_handle st h with
+Definition timer_del (fx : fixes) (st : lp) (h : Z) : lp :=
+  match timer_from_handle fx st h with
   | LErr e => emit st (ERet (- e) 0)
   | LOk i t =>
     let st := if s_check t =? 0 then emit st (ENote 2) else st in      (* ghost: forged handle *)
@@ -225,8 +227,8 @@ Definition timer_del (st : lp) (h : Z) : lp :=
   end.
 
 (* qb_loop_timer_expire_time_get *)
-Definition expire_time_get (st : lp) (h : Z) : Z :=
-  match timer_from_handle st h with
+Definition expire_time_get (fx : fixes) (st : lp) (h : Z) : Z :=
+  match timer_from_handle fx st h with
   | LErr _ => 0
   | LOk _ t =>
     if negb (s_state t =? LT_ENTRY_ACTIVE) then 0
@@ -234,11 +236,11 @@ Definition expire_time_get (st : lp) (h : Z) : Z :=
   end.
 
 (* qb_loop_timer_is_running *)
-Definition is_running (st : lp) (h : Z) : Z := if expire_time_get st h >? 0 then 1 else 0.
+Definition is_running (fx : fixes) (st : lp) (h : Z) : Z := if expire_time_get fx st h >? 0 then 1 else 0.
 
 (* qb_loop_timer_expire_time_remaining *)
-Definition time_remaining (st : lp) (h : Z) : Z * lp :=
-  match timer_from_handle st h with
+Definition time_remaining (fx : fixes) (st : lp) (h : Z) : Z * lp :=
+  match timer_from_handle fx st h with
   | LErr _ => (0, st)
   | LOk _ t =>
     if negb (s_state t =? LT_ENTRY_ACTIVE) then (0, st)
@@ -332,10 +334,10 @@ Definition exec_cbop (fx : fixes) (st : lp) (c : cbop) : lp :=
   if err st then st else
   match c with
   | CAdd p dur data chk => timer_add fx st p dur data chk
-  | CDel r => timer_del st (resolve st r)
-  | CExp r => emit st (ERet 0 (expire_time_get st (resolve st r)))
-  | CRem r => let (v, st') := time_remaining st (resolve st r) in emit st' (ERet 0 v)
-  | CRun r => emit st (ERet 0 (is_running st (resolve st r)))
+  | CDel r => timer_del fx st (resolve st r)
+  | CExp r => emit st (ERet 0 (expire_time_get fx st (resolve st r)))
+  | CRem r => let (v, st') := time_remaining fx st (resolve st r) in emit st' (ERet 0 v)
+  | CRun r => emit st (ERet 0 (is_running fx st (resolve st r)))
   | CMsec => let (v, st') := msec_to_expire fx st in emit st' (ERet 0 v)
   | CJob p data => job_add st p data
   | CStop => set_stop st true
